@@ -119,7 +119,8 @@ func ZZ_C01_exec() {
 	}
 	text := zzBuildDoc(picks)
 	w := &zzWorld{}
-	if zzContains(text, "n{") || zzContains(text, "n @") || zzContains(text, "u{") {
+	abstract := zzContains(text, "n{") || zzContains(text, "n @") || zzContains(text, "u{")
+	if abstract {
 		if zzChoice("rt", 2) == 1 {
 			w.runtimeN = "Other"
 		}
@@ -149,6 +150,10 @@ func ZZ_C01_exec() {
 	for run := 0; run < 2; run++ {
 		vars := zzVarsFor(text, zzItoa(run))
 		w.calls = nil
+		if run == 1 && abstract {
+			// the second execution of the plan may meet the other runtime type
+			w.runtimeN = []string{"", "Other"}[zzChoice("rt2", 2)]
+		}
 		r := ExecutePlan(plan, ExecuteParams{Schema: schema, Args: vars})
 		want, wantCalls := zzRefExecute(w, doc, "", vars)
 		zzAssert(len(r.Errors) == 0, "ExecutePlan: unexpected errors for a valid document")
